@@ -98,3 +98,28 @@ func VX_C15_async_value_then_error() {
 	tp.Close()
 	vxJoin()
 }
+
+// awaiting one promise twice (already settled the second time, settled or not the first time,
+// depending on the schedule) gives its value both times and leaves the promise usable:
+//   p AWAIT AWAIT_RESULT POP p AWAIT AWAIT_RESULT RETURN
+func VX_C15_async_await_twice() {
+	tp := vxPool(1, 1)
+	p := NewExternalPromise(tp)
+	x := vxInt64("x")
+	fn := &BytecodeFunction{Instructions: []byte{
+		byte(bytecode.GET_LOCAL_1), byte(bytecode.AWAIT), byte(bytecode.AWAIT_RESULT),
+		byte(bytecode.POP),
+		byte(bytecode.GET_LOCAL_1), byte(bytecode.AWAIT), byte(bytecode.AWAIT_RESULT),
+		byte(bytecode.RETURN),
+	}, parameterCount: 1}
+	task := NewBytecodePromise(tp, fn, value.Nil, value.Ref(p))
+	vxGo(func() {
+		p.Resolve(value.SmallInt(x).ToValue())
+	})
+	res, _, err := task.AwaitSync()
+	vxAssert(err.IsUndefined() && vxIs(res, x), "async/awaiting-a-promise-twice-gives-its-value-twice")
+	res2, _, err2 := p.AwaitSync()
+	vxAssert(err2.IsUndefined() && vxIs(res2, x), "async/an-awaited-promise-can-still-be-awaited-synchronously")
+	tp.Close()
+	vxJoin()
+}
